@@ -430,7 +430,7 @@ func vfeStart(dir string, np, ni, nj int, rng *rand.Rand) (*vfeEnv, error) {
 					}
 					continue
 				}
-				reply := make(chan []*ServerPeer)
+				reply := make(chan []*ServerPeer, 1) // buffered: peerHandler never waits for the forwarder
 				select {
 				case inner.query <- getPeersMsg{reply: reply}:
 				case <-s.quit:
@@ -465,6 +465,7 @@ func (e *vfeEnv) stop() {
 		case <-e.pend.done:
 		case <-time.After(vfeWait):
 		}
+		atomic.AddInt64(&e.wantBanGets, 1)
 		e.banLookupsDone()
 		e.pend = nil
 	}
